@@ -251,6 +251,9 @@ func registry() map[string]PropSpec {
 			{Pkg: ".", Name: "c19_obs_step", Quick: map[string]int{}, Unwind: [2]int{64, 64},
 				Models: []string{"net/url.Parse=vpModelURLParse", "path.Join=vpModelPathJoin"},
 				What:   "CommandStep.MarshalJSON does not modify the step nor materialise absent fields"},
+			{Pkg: ".", Name: "c19_disjoint", Quick: map[string]int{}, Unwind: [2]int{128, 128}, FixedMapOrder: true,
+				Models: []string{"net/url.Parse=vpModelURLParse", "path.Join=vpModelPathJoin", "github.com/buildkite/interpolate.Interpolate=vpModelInterpolate"},
+				What:   "separation: a document whose two steps spell an unknown field, the step env, plugins with configs, a matrix, a whole step or a group's children once with an anchor and twice with aliases is parsed twice; the three steps of one parse, and the two parses, share no mutable heap object (walk over the engine heap: pointer targets, slice backing arrays, maps), and interpolating one step changes neither its sibling nor the other parse"},
 			{Pkg: "signature", Name: "c06_signsteps", Quick: map[string]int{"depth": 0, "width": 2, "lite": 0}, Unwind: [2]int{64, 64}, FixedMapOrder: true,
 				Models: []string{"net/url.Parse=vpModelURLParse", "path.Join=vpModelPathJoin"},
 				What:   "SignSteps/Sign/Verify write nothing but the Signature field: step scalars, step env, plugins and the caller's env map are unchanged (frame assertions of the C06 harness)"},
